@@ -121,6 +121,166 @@ Proof.
   repeat match goal with |- context [if ?b then _ else _] => destruct b end; reflexivity.
 Qed.
 
+
+(** * Table rows *)
+Definition tab_wf (T : tables) : Prop :=
+  sm_wf str_cmp T /\ Forall (fun tr => sm_wf str_cmp (snd tr)) T.
+
+Definition in_use (t : str) : Prop := t = T_USER_B \/ t = T_CACHE_B.
+
+Definition tab_inv (T : tables) : Prop := tab_wf T /\ Forall (fun tr => in_use (fst tr)) T.
+
+(** in scope: the tables that load_snapshot routes back (T_USER, T_CACHE) *)
+Definition tab_mok (r : tabreq) : Prop :=
+  match r with
+  | TSet t _ _ | TRemove t _ | TDrop t | TNextId t => in_use t
+  | TOther => True
+  end.
+
+Definition tab_ok (T : tables) : Prop := Forall wf_record (tab_snap T).
+
+Lemma tab_rows_wf T t : tab_wf T -> sm_wf str_cmp (tab_rows T t).
+Proof.
+  intros [W F]. unfold tab_rows. destruct (sm_get str_cmp T t) as [rows |] eqn:G; [| exact I].
+  apply (Forall_get _ SOK _ _ _ _ F G).
+Qed.
+
+Lemma tab_wf_apply T r : tab_wf T -> tab_wf (tab_apply T r).
+Proof.
+  intros WT. pose proof WT as [W F]. destruct r as [t k v | t k | t | t |]; cbn [tab_apply]; [| | | | exact WT].
+  - split; [now apply (wf_put _ SOK) |]. apply Forall_put; [| exact F]. cbn [snd].
+    apply (wf_put _ SOK). now apply tab_rows_wf.
+  - destruct (sm_get str_cmp T t) as [rows |] eqn:G; [| exact WT].
+    split; [now apply (wf_put _ SOK) |]. apply Forall_put; [| exact F]. cbn [snd].
+    apply wf_del. apply (Forall_get _ SOK _ _ _ _ F G).
+  - split; [now apply wf_del | now apply del_Forall].
+  - destruct (sm_get str_cmp T t); [exact WT |].
+    split; [now apply (wf_put _ SOK) |]. apply Forall_put; [exact I | exact F].
+Qed.
+
+Lemma tab_inv_apply T r : tab_inv T -> tab_mok r -> tab_inv (tab_apply T r).
+Proof.
+  intros [WT U] OK. split; [now apply tab_wf_apply |].
+  assert (PU : forall t x, in_use t -> Forall (fun tr => in_use (fst tr)) (sm_put str_cmp T t x)).
+  { intros t x Ht. apply Forall_put; [exact Ht | exact U]. }
+  destruct r as [t k v | t k | t | t |]; cbn [tab_apply tab_mok] in *; auto.
+  - destruct (sm_get str_cmp T t); auto.
+  - now apply del_Forall.
+  - destruct (sm_get str_cmp T t); auto.
+Qed.
+
+(** pointwise effect of a request on one row *)
+Definition tupd (r : tabreq) (t k : str) (d : option str) : option str :=
+  match r with
+  | TSet t0 k0 v => if str_eqb t0 t && str_eqb k0 k then Some v else d
+  | TRemove t0 k0 => if str_eqb t0 t && str_eqb k0 k then None else d
+  | TDrop t0 => if str_eqb t0 t then None else d
+  | _ => d
+  end.
+
+Lemma tab_rows_put T t0 x t : tab_rows (sm_put str_cmp T t0 x) t = if str_eqb t0 t then x else tab_rows T t.
+Proof.
+  unfold tab_rows. rewrite (get_put _ SOK), str_cmp_match, (str_eqb_sym' t t0).
+  destruct (str_eqb t0 t); reflexivity.
+Qed.
+
+Lemma tab_get_apply T r t k : tab_wf T -> tab_get (tab_apply T r) t k = tupd r t k (tab_get T t k).
+Proof.
+  intros WT. pose proof WT as [W F]. unfold tab_get.
+  destruct r as [t0 k0 v | t0 k0 | t0 | t0 |]; cbn [tab_apply tupd]; [| | | | reflexivity].
+  - rewrite tab_rows_put. destruct (str_eqb t0 t) eqn:Et; cbn [andb]; [| reflexivity].
+    apply str_eqb_eq in Et. subst t0.
+    rewrite (get_put _ SOK), str_cmp_match, (str_eqb_sym' k k0). destruct (str_eqb k0 k); reflexivity.
+  - destruct (sm_get str_cmp T t0) as [rows |] eqn:G.
+    + rewrite tab_rows_put. destruct (str_eqb t0 t) eqn:Et; cbn [andb]; [| reflexivity].
+      apply str_eqb_eq in Et. subst t0.
+      assert (Wr : sm_wf str_cmp rows) by apply (Forall_get _ SOK _ _ _ _ F G).
+      rewrite (get_del _ SOK) by exact Wr. rewrite str_cmp_match, (str_eqb_sym' k k0).
+      unfold tab_rows. rewrite G. destruct (str_eqb k0 k); reflexivity.
+    + destruct (str_eqb t0 t) eqn:Et; cbn [andb]; [| reflexivity].
+      apply str_eqb_eq in Et. subst t0. unfold tab_rows. rewrite G. cbn [sm_get].
+      destruct (str_eqb k0 k); reflexivity.
+  - unfold tab_rows. rewrite (get_del _ SOK) by exact W. rewrite str_cmp_match, (str_eqb_sym' t t0).
+    destruct (str_eqb t0 t); reflexivity.
+  - destruct (sm_get str_cmp T t0) eqn:G; [reflexivity |].
+    rewrite tab_rows_put. destruct (str_eqb t0 t) eqn:Et; [| reflexivity].
+    apply str_eqb_eq in Et. subst t0. unfold tab_rows. now rewrite G.
+Qed.
+
+Definition tab_eqw (T1 T2 : tables) : Prop := tab_eq T1 T2 /\ tab_wf T1 /\ tab_wf T2.
+
+Theorem tab_apply_cong T1 T2 r : tab_eqw T1 T2 -> tab_eqw (tab_apply T1 r) (tab_apply T2 r).
+Proof.
+  intros (E & W1 & W2). split; [| split; now apply tab_wf_apply].
+  intros t k. rewrite !tab_get_apply by assumption. now rewrite E.
+Qed.
+
+(** scanning the records of a snapshot for one row *)
+Definition rscan (t k : str) (d : option str) (r : record) : option str :=
+  if str_eqb (rtree r) t && str_eqb (rkey r) k then Some (rval r) else d.
+
+Lemma tab_load_fold recs : forall A t k, tab_wf A ->
+  tab_wf (fold_left tab_load recs A) /\
+  tab_get (fold_left tab_load recs A) t k = fold_left (rscan t k) recs (tab_get A t k).
+Proof.
+  induction recs as [| r recs IH]; intros A t k WA; cbn [fold_left]; [split; [exact WA | reflexivity] |].
+  destruct (IH (tab_load A r) t k) as [W' G']; [now apply tab_wf_apply |].
+  split; [exact W' |]. rewrite G'. unfold tab_load. now rewrite tab_get_apply.
+Qed.
+
+Lemma rows_scan t k rows : sm_wf str_cmp rows -> forall d,
+  fold_left (rscan t k) (map (fun kv => mkRec t (fst kv) (snd kv)) rows) d
+  = match sm_get str_cmp rows k with Some v => Some v | None => d end.
+Proof.
+  induction rows as [| [k1 v1] rows IH]; intros W d; cbn [map fold_left sm_get]; [reflexivity |].
+  destruct W as [F W]. rewrite IH by exact W. unfold rscan at 1. cbn [rtree rkey rval fst snd].
+  rewrite str_eqb_refl. cbn [andb]. rewrite (str_eqb_sym' k1 k), <- str_cmp_match.
+  destruct (str_cmp k k1) eqn:C.
+  - apply str_cmp_eq in C. subst k1. now rewrite (get_none_lt_all _ _ _ F).
+  - rewrite (get_none_lt_all str_cmp rows k); [reflexivity |]. eapply (Forall_lt_trans _ SOK); eauto.
+  - reflexivity.
+Qed.
+
+Lemma rows_scan_other t t1 k rows d : t1 <> t ->
+  fold_left (rscan t k) (map (fun kv => mkRec t1 (fst kv) (snd kv)) rows) d = d.
+Proof.
+  intros NE. induction rows as [| kv rows IH]; cbn [map fold_left]; [reflexivity |].
+  unfold rscan at 2. cbn [rtree]. rewrite (proj2 (str_eqb_neq t1 t) NE). cbn [andb]. exact IH.
+Qed.
+
+Lemma later_tables_scan t k (T : tables) : Forall (fun tr => str_cmp t (fst tr) = Lt) T ->
+  forall d, fold_left (rscan t k) (tab_snap T) d = d.
+Proof.
+  induction T as [| [t2 rows2] T IHT]; intros FT d; [reflexivity |].
+  cbn [tab_snap flat_map fst snd]. rewrite fold_left_app. inversion FT as [| ? ? Ft2 FT2]; subst. cbn [fst] in Ft2.
+  rewrite rows_scan_other; [now apply IHT |]. intros ->. rewrite (proj2 (str_cmp_eq t t) eq_refl) in Ft2. discriminate.
+Qed.
+
+Lemma snap_scan T : tab_wf T -> forall t k,
+  fold_left (rscan t k) (tab_snap T) None = tab_get T t k.
+Proof.
+  induction T as [| [t1 rows1] T IH]; intros [W F] t k; [reflexivity |].
+  cbn [tab_snap flat_map fst snd]. rewrite fold_left_app.
+  destruct W as [FT W]. inversion F as [| ? ? Fr FT']; subst. cbn [snd] in Fr.
+  unfold tab_get, tab_rows. cbn [sm_get].
+  destruct (str_cmp t t1) eqn:C.
+  - apply str_cmp_eq in C. subst t1. rewrite rows_scan by exact Fr.
+    rewrite (later_tables_scan t k T FT). match goal with |- match ?x with _ => _ end = ?y => change y with x; destruct x end; reflexivity.
+  - rewrite rows_scan_other by (intros ->; rewrite (proj2 (str_cmp_eq t t) eq_refl) in C; discriminate).
+    etransitivity; [apply (IH (conj W FT') t k) |]. unfold tab_get, tab_rows.
+    rewrite (get_none_lt_all str_cmp T t); [reflexivity |]. eapply (Forall_lt_trans _ SOK); eauto.
+  - rewrite rows_scan_other by (intros ->; rewrite (proj2 (str_cmp_eq t t) eq_refl) in C; discriminate).
+    apply (IH (conj W FT') t k).
+Qed.
+
+Theorem tab_rebuild T : tab_wf T -> tab_eqw (fold_left tab_load (tab_snap T) []) T.
+Proof.
+  intros WT. assert (W0 : tab_wf []) by (split; [exact I | constructor]).
+  split; [| split; [apply (tab_load_fold (tab_snap T) [] [] [] W0) | exact WT]].
+  intros t k. destruct (tab_load_fold (tab_snap T) [] t k W0) as [_ G]. rewrite G.
+  now apply snap_scan.
+Qed.
+
 Section CP.
   Variable H : str -> str.
   Notation cstate := cstate.
@@ -137,7 +297,7 @@ Section CP.
 
   (** snapshot-encodable: u64 counters, byte-string keys *)
   Definition seq_ok (m : seqdb) : Prop :=
-    Forall (fun kv => snd kv < 2 ^ 64 /\ wf_bytes (fst kv)) m.
+    Forall (fun kv => snd kv < 2 ^ 64) m /\ Forall wf_record (seq_snap m).
 
   Lemma seq_inv_apply m r : seq_inv m -> seq_mok r -> seq_inv (seq_apply m r).
   Proof.
@@ -173,7 +333,7 @@ Section CP.
     intros I K. cbn [n_snap n_init]. rewrite seq_load_fold.
     - f_equal. apply (db_snapshot_roundtrip m), I.
     - intros kv Hin. split; [eapply seq_keys_not_reserved; eauto |].
-      unfold seq_ok in K. rewrite Forall_forall in K. now apply K.
+      destruct K as [K _]. rewrite Forall_forall in K. now apply K.
   Qed.
 
   Lemma seq_snap_routed m r : seq_inv m -> In r (seq_snap m) -> routed_to KSequence (rtree r) (rkey r).
@@ -367,5 +527,258 @@ Section CP.
       assert (G : cache_get s k = Some v) by (apply (in_get_some _ KOK); [apply (inv_cache _ _ I) | exact Hin]).
       destruct (C k v G) as [Cv Wk]. split; [exact Wv | split; [exact Wk |]].
       apply value_do_id; [exact Cv | apply (inv_md5 _ _ I k v G)].
+  Qed.
+
+  (** ** equivalent stores stay equivalent under every committed command *)
+  Lemma set_cache_eq s1 s2 p : st_cache s1 = st_cache s2 ->
+    st_cache (fst (set_config H s1 p)) = st_cache (fst (set_config H s2 p)).
+  Proof.
+    destruct s1 as [c1 i1 q1], s2 as [c2 i2 q2]. cbn [st_cache]. intros <-.
+    unfold set_config, cache_get; cbn [st_cache st_index st_seq].
+    destruct (sm_get key_cmp c1 (sp_key p)); [destruct (negb _ && _) |]; reflexivity.
+  Qed.
+
+  Lemma set_index_cases s1 s2 p : st_cache s1 = st_cache s2 ->
+    (st_index (fst (set_config H s1 p)) = st_index s1 /\ st_index (fst (set_config H s2 p)) = st_index s2) \/
+    (st_index (fst (set_config H s1 p)) = snd (ti_insert (st_index s1) (sp_key p)) /\
+     st_index (fst (set_config H s2 p)) = snd (ti_insert (st_index s2) (sp_key p))).
+  Proof.
+    destruct s1 as [c1 i1 q1], s2 as [c2 i2 q2]. cbn [st_cache]. intros <-.
+    unfold set_config, cache_get; cbn [st_cache st_index st_seq].
+    destruct (sm_get key_cmp c1 (sp_key p)) as [v |]; [| right; split; reflexivity].
+    destruct (negb _ && _); [left; split; reflexivity |].
+    match goal with |- context [match cv_hist ?x with _ => _ end] => destruct (cv_hist x) end;
+      [right | left]; split; reflexivity.
+  Qed.
+
+  Lemma set_seq_shape s p :
+    st_seq (fst (set_config H s p)) =
+    match sp_table_id p with Some t => set_valid_last_id (st_seq s) t | None => st_seq s end.
+  Proof.
+    unfold set_config. destruct (cache_get s (sp_key p)); [destruct (negb _ && _) |]; reflexivity.
+  Qed.
+
+  Definition seq_eq (q1 q2 : sseq) : Prop := get_end_id q1 = get_end_id q2 /\ sq_batch q1 = sq_batch q2.
+
+  Lemma seq_eq_valid q1 q2 t : seq_eq q1 q2 -> seq_eq (set_valid_last_id q1 t) (set_valid_last_id q2 t).
+  Proof.
+    intros [E B]. unfold set_valid_last_id. unfold get_end_id in E. rewrite E.
+    destruct (_ <? t); [| split; assumption].
+    split; [reflexivity | exact B].
+  Qed.
+
+  Lemma insert_mem_eq t1 t2 k : (forall x, ti_mem t1 x = ti_mem t2 x) ->
+    forall x, ti_mem (snd (ti_insert t1 k)) x = ti_mem (snd (ti_insert t2 k)) x.
+  Proof. intros E x. now rewrite !ti_insert_mem, E. Qed.
+
+  Theorem cfg_apply_cong s1 s2 c : cfg_eqw s1 s2 -> cfg_eqw (cfg_apply H s1 c) (cfg_apply H s2 c).
+  Proof.
+    intros ((EC & EM & ES & EB) & W1 & W2). unfold cfg_apply.
+    destruct c as [ks value ctype desc hid tid time user | ks | k d last]; cbn [apply_raft].
+    - set (p := param_of_add ks value ctype desc hid tid time user).
+      destruct (set_config H s1 p) as [s1' b1] eqn:E1. destruct (set_config H s2 p) as [s2' b2] eqn:E2.
+      cbn [fst].
+      assert (F1 : s1' = fst (set_config H s1 p)) by now rewrite E1.
+      assert (F2 : s2' = fst (set_config H s2 p)) by now rewrite E2.
+      rewrite F1, F2.
+      pose proof (seq_eq_valid (st_seq s1) (st_seq s2)) as SV.
+      destruct (set_index_cases s1 s2 p EC) as [[I1 I2] | [I1 I2]].
+      + split; [| rewrite I1, I2; split; assumption].
+        split; [now apply set_cache_eq |]. split; [rewrite I1, I2; exact EM |].
+        rewrite !set_seq_shape. destruct (sp_table_id p); [apply SV; split; assumption | split; assumption].
+      + split; [| rewrite I1, I2; split; now apply ti_insert_wf].
+        split; [now apply set_cache_eq |]. split; [rewrite I1, I2; now apply insert_mem_eq |].
+        rewrite !set_seq_shape. destruct (sp_table_id p); [apply SV; split; assumption | split; assumption].
+    - cbv zeta. cbn [fst]. unfold del_config. split; [| split; cbn [st_index]; now apply ti_remove_wf].
+      split; cbn [st_cache st_index st_seq]; [now rewrite EC |].
+      split; [| split; assumption].
+      intros x. rewrite !ti_remove_mem by assumption. now rewrite EM.
+    - cbn [fst]. assert (G : cfg_eqw (inner_set_config s1 k (value_of_do H d)) (inner_set_config s2 k (value_of_do H d))).
+      { split; [| split; cbn [inner_set_config st_index]; now apply ti_insert_wf].
+        split; cbn [inner_set_config st_cache st_index st_seq]; [now rewrite EC |].
+        split; [now apply insert_mem_eq | split; assumption]. }
+      destruct last as [l |]; [| exact G].
+      destruct G as ((GC & GM & GS & GB) & GW1 & GW2).
+      split; [| split; assumption]. split; [exact GC |]. split; [exact GM |].
+      cbn [st_seq]. apply seq_eq_valid. split; assumption.
+  Qed.
+
+  Lemma cfg_eqw_refl s : cfg_inv s -> cfg_eqw s s.
+  Proof. intros (I & _). split; [repeat split | split; apply (inv_index _ _ I)]. Qed.
+
+  Lemma cfg_eqw_trans s1 s2 s3 : cfg_eqw s1 s2 -> cfg_eqw s2 s3 -> cfg_eqw s1 s3.
+  Proof.
+    intros ((C1 & M1 & S1 & B1) & W1 & _) ((C2 & M2 & S2 & B2) & _ & W3).
+    split; [| split; assumption]. split; [congruence |]. split; [intros k; now rewrite M1 |]. split; congruence.
+  Qed.
+
+  Lemma cfg_snap_routed s r : In r (cfg_snap s) -> routed_to KConfig (rtree r) (rkey r).
+  Proof.
+    unfold cfg_snap. rewrite in_app_iff. intros [Hin | [<- | []]].
+    - apply in_map_iff in Hin. destruct Hin as [kv [<- _]]. eexists. apply route_config.
+    - eexists. apply route_seq_config.
+  Qed.
+
+  (** * the node *)
+  Definition n_eq (c : comp) (a b : cstate) : Prop :=
+    match a, b with
+    | SCfg s1, SCfg s2 => cfg_eqw s1 s2
+    | SSeq m1, SSeq m2 => m1 = m2
+    | STab T1, STab T2 => tab_eqw T1 T2
+    | SUnit, SUnit => True
+    | _, _ => False
+    end.
+
+  Definition n_inv (c : comp) (st : cstate) : Prop :=
+    match c, st with
+    | KConfig, SCfg s => cfg_inv s
+    | KSequence, SSeq m => seq_inv m
+    | KTable, STab T => tab_inv T
+    | KConfig, _ | KSequence, _ | KTable, _ => False
+    | _, SUnit => True
+    | _, _ => False
+    end.
+
+  Definition n_mok (c : comp) (m : cmsg) : Prop :=
+    match c, m with
+    | KConfig, MCfg x => cfg_mok x
+    | KSequence, MSeq r => seq_mok r
+    | KTable, MTab r => tab_mok r
+    | _, _ => False
+    end.
+
+  Definition n_ok (c : comp) (st : cstate) : Prop :=
+    match c, st with
+    | KConfig, SCfg s => cfg_ok s
+    | KSequence, SSeq m => seq_ok m
+    | KTable, STab T => tab_ok T
+    | _, _ => True
+    end.
+
+  Lemma n_eq_trans c s1 s2 s3 : n_eq c s1 s2 -> n_eq c s2 s3 -> n_eq c s1 s3.
+  Proof.
+    destruct s1, s2, s3; cbn [n_eq]; try contradiction; try (intros; exact I).
+    - apply cfg_eqw_trans.
+    - congruence.
+    - intros (E1 & W1 & _) (E2 & _ & W3). split; [| split; assumption]. intros t k. now rewrite E1.
+  Qed.
+
+  Lemma n_eq_refl c st : n_inv c st -> n_eq c st st.
+  Proof.
+    destruct c, st; cbn [n_inv n_eq]; try contradiction; try (intros; exact I); try reflexivity.
+    - apply cfg_eqw_refl.
+    - intros [W _]. split; [intros t k; reflexivity | split; exact W].
+  Qed.
+
+  Lemma n_apply_cong c s1 s2 m : n_eq c s1 s2 -> n_eq c (n_apply H c s1 m) (n_apply H c s2 m).
+  Proof.
+    destruct c, s1, s2, m; cbn [n_eq n_apply]; try contradiction; try (intros; assumption); try (intros; exact I).
+    - intros ->. reflexivity.
+    - apply cfg_apply_cong.
+    - apply tab_apply_cong.
+  Qed.
+
+  Lemma n_inv_init c : n_inv c (n_init c).
+  Proof.
+    destruct c; cbn [n_inv n_init]; try exact I.
+    - split; [exact I | reflexivity].
+    - apply cfg_inv_init.
+    - split; [split; [exact I | constructor] | constructor].
+  Qed.
+
+  Lemma n_inv_apply c st m : n_inv c st -> n_mok c m -> n_inv c (n_apply H c st m).
+  Proof.
+    destruct c, st, m; cbn [n_inv n_mok n_apply]; try contradiction; try (intros; exact I).
+    - apply seq_inv_apply.
+    - apply cfg_inv_apply.
+    - apply tab_inv_apply.
+  Qed.
+
+  Lemma tab_snap_tree T r : In r (tab_snap T) -> exists rows, In (rtree r, rows) T.
+  Proof.
+    unfold tab_snap. rewrite in_flat_map. intros [[t rows] [HT Hin]]. apply in_map_iff in Hin.
+    destruct Hin as [kv [<- _]]. cbn [rtree fst]. now exists rows.
+  Qed.
+
+  Lemma in_use_routed t key : in_use t -> route load_arms t key = Some (KTable, LTableSet).
+  Proof. intros [-> | ->]; [apply route_user | apply route_cache]. Qed.
+
+  Lemma n_snap_routed c st r : n_inv c st -> n_ok c st -> In r (n_snap c st) -> routed_to c (rtree r) (rkey r).
+  Proof.
+    destruct c, st; cbn [n_inv n_snap]; try contradiction; try (intros _ _ []).
+    - intros I _. now apply seq_snap_routed.
+    - intros _ _. apply cfg_snap_routed.
+    - intros [_ U] _ Hin. destruct (tab_snap_tree _ _ Hin) as [rows HT].
+      rewrite Forall_forall in U. eexists. apply in_use_routed. apply (U _ HT).
+  Qed.
+
+  Lemma tab_load_routed l : forall A,
+    (forall r, In r l -> in_use (rtree r)) ->
+    fold_left (cload_routed KTable) l (STab A) = STab (fold_left tab_load l A).
+  Proof.
+    induction l as [| r l IH]; intros A HP; [reflexivity |]. cbn [fold_left].
+    unfold ReplayProofs.cload_routed at 2. rewrite in_use_routed by (apply HP; now left).
+    cbn [comp_eqb n_load]. apply IH. intros r' Hr'. apply HP. now right.
+  Qed.
+
+  Theorem n_roundtrip c st : n_inv c st -> n_ok c st ->
+    n_eq c (fold_left (cload_routed c) (n_snap c st) (n_init c)) st.
+  Proof.
+    destruct c, st; cbn [n_inv n_ok]; try contradiction; try (intros _ _; exact I).
+    - intros I K. rewrite seq_roundtrip by assumption. reflexivity.
+    - intros I K. destruct (cfg_roundtrip s I K) as [s' [E Q]]. rewrite E. exact Q.
+    - intros [W U] _. cbn [n_snap n_init]. rewrite tab_load_routed.
+      + now apply tab_rebuild.
+      + intros r Hin. destruct (tab_snap_tree _ _ Hin) as [rows HT].
+        rewrite Forall_forall in U. apply (U _ HT).
+  Qed.
+
+  (** every record of an encodable node state survives the record codec *)
+  Lemma seq_config_record_wf e : wf_record (mkRec T_SEQUENCE_B SEQ_CONFIG_B (be8 e)).
+  Proof.
+    assert (B : all_bytes (be8 e)) by apply be8_all_bytes.
+    split; [discriminate |]. repeat split; try (vm_compute; reflexivity); try exact B;
+      try (repeat constructor; unfold is_byte; reflexivity).
+  Qed.
+
+  Lemma n_snap_wf c st : n_ok c st -> Forall wf_record (n_snap c st).
+  Proof.
+    destruct c, st; cbn [n_ok n_snap]; try (intros; constructor).
+    - intros [_ K]. exact K.
+    - intros [K _]. unfold cfg_snap. apply Forall_app. split.
+      + apply Forall_forall. intros r Hin. apply in_map_iff in Hin. destruct Hin as [kv [<- Hin]].
+        rewrite Forall_forall in K. apply (K _ Hin).
+      + constructor; [apply seq_config_record_wf | constructor].
+    - intros K. exact K.
+  Qed.
+
+  Lemma node_codec_ok (st : node cstate) hdr :
+    rec_ok hdr -> (List.length (frame hdr) <= 1024)%nat -> (forall c, n_ok c (st c)) ->
+    codec_ok enc_item dec_item_frame hdr (build_snapshot cstate n_snap st).
+  Proof.
+    intros Hh Hl K. split; [exact Hh | split; [exact Hl |]].
+    unfold build_snapshot. apply Forall_forall. intros r Hin. apply in_flat_map in Hin.
+    destruct Hin as [c [_ Hin]]. pose proof (n_snap_wf c (st c) (K c)) as F.
+    rewrite Forall_forall in F. specialize (F r Hin).
+    split; [now apply item_roundtrip | now apply item_rec_ok].
+  Qed.
+
+  (** ** C01 without component premises: histories over config, sequence and table requests *)
+  Theorem restart_reproduces_config_seq :
+    forall (hist : list (entry cmsg)) (k : nat) (leftover hdr : list N),
+      (k <= List.length hist)%nat ->
+      Forall (entry_ok cmsg n_mok) hist ->
+      (forall c, n_ok c (run cstate cmsg (n_apply H) (firstn k hist) (init_node cstate n_init) c)) ->
+      rec_ok hdr -> (List.length (frame hdr) <= 1024)%nat ->
+      exists nd,
+        restart cstate cmsg (n_apply H) n_snap (n_load H) n_init enc_item dec_item_frame
+                write_truncate leftover hdr hist k = Ok nd /\
+        forall c, n_eq c (nd c) (run cstate cmsg (n_apply H) hist (init_node cstate n_init) c).
+  Proof.
+    intros hist k leftover hdr Hk OK NK Hh Hl.
+    apply (restart_reproduces cstate cmsg (n_apply H) n_snap (n_load H) n_init n_eq n_eq_trans n_apply_cong
+                              n_inv n_mok n_ok n_eq_refl n_inv_init n_inv_apply n_snap_routed n_roundtrip
+                              enc_item dec_item_frame hist k leftover hdr Hk OK NK).
+    now apply node_codec_ok.
   Qed.
 End CP.
